@@ -433,11 +433,20 @@ impl SeqModel for C10 {
         w.node.ctx.install();
         let line = self.letters[letter].clone();
         let pn = w.probe_n;
+        // the engine keeps using a world whose state a letter did not change: the step counter
+        // (which `enabled` reads) must then not have moved either, or every letter after the
+        // first harmless one would be judged "second step" at the root
+        let at_root = if w.steps == 0 { Some(state_key(w)) } else { None };
         w.steps += 1;
         let o = w.sess.exec(&w.node, &line);
         let r = check_after_line(w, &line, &o);
         // the probe counter is bookkeeping, not state: keep keys comparable
         w.probe_n = pn;
+        if let Some(k0) = at_root {
+            if r.is_empty() && state_key(w) == k0 {
+                w.steps = 0;
+            }
+        }
         if r.is_empty() {
             // restore the probe key so that a read-only line leaves the key unchanged
         }
